@@ -455,11 +455,12 @@ structure Exp where
 
 def Sess.exp (s : Sess) : Exp := ⟨visible s, xform s, s.max⟩
 
-/-- `process_nlri_change`; returns the new export map and the sink calls in order.
+/-- `export_nlri_change` (`process_nlri_change` = `resendAll := false`; `do_route_refresh` passes
+    `true`); returns the new export map and the sink calls in order.
     In the add-path branch the withdrawals are emitted in ascending path-id order
     (the Rust iterates a hash set; `PendingTx` and the observation do not depend on it). -/
-def processNlriChange {Net : Type} (e : Exp) (u : Change Net) (m : ExportMap) :
-    ExportMap × List (SinkOp Net) :=
+def processNlriChange {Net : Type} (e : Exp) (u : Change Net) (m : ExportMap)
+    (resendAll : Bool := false) : ExportMap × List (SinkOp Net) :=
   if e.max = 1 then
     if !u.bestChanged then (m, [])
     else
@@ -488,7 +489,7 @@ def processNlriChange {Net : Type} (e : Exp) (u : Change Net) (m : ExportMap) :
         let (pid, as, nh) := t
         let already := acc.1.containsPath u.destId pid
         let wasReplaced := u.replaced = some pid
-        if !already || wasReplaced then (acc.1.markSent u.destId pid, acc.2 ++ [SinkOp.reach u.destId u.net pid nh as])
+        if !already || wasReplaced || resendAll then (acc.1.markSent u.destId pid, acc.2 ++ [SinkOp.reach u.destId u.net pid nh as])
         else acc
       top.foldl step (m1, ops1)
 
